@@ -275,13 +275,10 @@ fn get_class_info(graph: &Graph, subtable: ObjectId) -> Vec<Mark2BaseClassInfo> 
     assert_eq!(base_array_off.pos, 10);
     let base_array_data = &graph.objects[&base_array_off.object];
 
-    // null anchors have no offset record, so we find the class of each anchor
-    // from the position of its offset in the (base_count x mark_class_count) matrix
-    for off in &base_array_data.offsets {
-        let matrix_idx = (off.pos as usize - u16::RAW_BYTE_LEN) / Offset16::RAW_BYTE_LEN;
-        class_to_info[matrix_idx % mark_class_count as usize]
-            .children
-            .push(off.object)
+    for offsets in base_array_data.offsets.chunks_exact(mark_class_count as _) {
+        for (i, off) in offsets.iter().enumerate() {
+            class_to_info[i].children.push(off.object)
+        }
     }
 
     class_to_info
@@ -375,32 +372,6 @@ mod tests {
         BaseArray::new(base_records)
     }
 
-    #[test]
-    fn class_info_with_null_base_anchors() {
-        // two mark classes; the three bases only have anchors for class 1
-        let mark_coverage = [10u16, 11].into_iter().map(GlyphId16::new).collect();
-        let base_coverage = [20u16, 21, 22].into_iter().map(GlyphId16::new).collect();
-        let mark_array = MarkArray::new(vec![
-            MarkRecord::new(0, AnchorTable::format_1(1, 1)),
-            MarkRecord::new(1, AnchorTable::format_1(2, 2)),
-        ]);
-        let base_array = BaseArray::new(
-            (0..3)
-                .map(|i| BaseRecord::new(vec![None, Some(AnchorTable::format_1(100 + i, 100))]))
-                .collect(),
-        );
-        let table = MarkBasePosFormat1::new(mark_coverage, base_coverage, mark_array, base_array);
-        let lookup = Lookup::new(LookupFlag::empty(), vec![table]);
-        let graph = TableWriter::make_graph(&lookup);
-        let subtable = graph.objects[&graph.root].offsets[0].object;
-        let info = get_class_info(&graph, subtable);
-        assert_eq!(info.len(), 2);
-        // the mark anchor only
-        assert_eq!(info[0].children.len(), 1);
-        // the mark anchor and one anchor per base
-        assert_eq!(info[1].children.len(), 4);
-    }
-
     // big sanity check of splitting a real table
     #[test]
     fn split_mark_2_base() {
@@ -423,30 +394,38 @@ mod tests {
 
         let table = MarkBasePosFormat1::new(mark_coverage, base_coverage, mark_array, base_array);
         let lookup = Lookup::new(LookupFlag::empty(), vec![table]);
-        // pack the way a GPOS table is packed: the split subtables only have to
-        // fit 16-bit offsets once the lookup is promoted to an extension lookup
-        let lookup_list = LookupList::new(vec![lookup]);
-        let dumped = crate::dump_table(&lookup_list).unwrap();
-        let read_back = rgpos::PositionLookupList::read(dumped.as_slice().into()).unwrap();
-        let subtables: Vec<_> = match read_back.lookups().get(0).unwrap().subtables().unwrap() {
-            PositionSubtables::MarkToBase(subs) => subs.iter().map(|sub| sub.unwrap()).collect(),
-            _ => panic!("wrong lookup type"),
-        };
-        assert!(subtables.len() > 1);
-        let lookup = &lookup_list.lookups[0];
+        let mut graph = TableWriter::make_graph(&lookup);
+        let id = graph.root;
+        assert!(graph.objects[&id].type_.is_promotable());
+        split_mark_to_base(&mut graph, id);
+        graph.remove_orphans();
+        assert!(graph.basic_sort());
+
+        let dumped = graph.serialize();
+        let read_back =
+            rlayout::Lookup::<rgpos::MarkBasePosFormat1>::read(dumped.as_slice().into()).unwrap();
 
         // quick sanity check: do the coverage tables match?
-        let mark_cov: CoverageTable = subtables
+        let mark_cov: CoverageTable = read_back
+            .subtables()
             .iter()
-            .flat_map(|sub| sub.mark_coverage().ok().map(|cov| cov.iter()))
+            .flat_map(|sub| {
+                sub.ok()
+                    .and_then(|sub| sub.mark_coverage().ok().map(|cov| cov.iter()))
+            })
             .flatten()
             .collect();
         assert_eq!(&mark_cov, lookup.subtables[0].mark_coverage.as_ref());
-        // every split subtable keeps the whole base coverage
-        for sub in &subtables {
-            let base_cov: CoverageTable = sub.base_coverage().unwrap().iter().collect();
-            assert_eq!(&base_cov, lookup.subtables[0].base_coverage.as_ref());
-        }
+        let base_cov: CoverageTable = read_back
+            .subtables()
+            .iter()
+            .flat_map(|sub| {
+                sub.ok()
+                    .and_then(|sub| sub.base_coverage().ok().map(|cov| cov.iter()))
+            })
+            .flatten()
+            .collect();
+        assert_eq!(&base_cov, lookup.subtables[0].base_coverage.as_ref());
 
         // this is a closure for comparing the pre-and-post split values
         let compare_old_and_new = |base_gid, mark_gid| {
@@ -466,9 +445,17 @@ mod tests {
                 .base_anchors[orig_mark_record.mark_class as usize];
 
             // then find the post-split subtable with this mark glyph
-            let new_subtable = subtables
+            let new_subtable = read_back
+                .subtables()
                 .iter()
-                .find(|sub| sub.mark_coverage().unwrap().get(mark_gid).is_some())
+                .find_map(|sub| {
+                    let sub = sub.unwrap();
+                    sub.mark_coverage()
+                        .unwrap()
+                        .get(mark_gid)
+                        .is_some()
+                        .then_some(sub)
+                })
                 .unwrap();
             let new_mark_idx = new_subtable.mark_coverage().unwrap().get(mark_gid).unwrap();
             let new_base_idx = new_subtable.base_coverage().unwrap().get(base_gid).unwrap();
